@@ -1,8 +1,11 @@
 //! Shared harness-side helpers. Nothing in here calls into `mp4` except where stated.
+pub mod alloc;
 pub mod boxes;
 pub mod fam;
 pub mod model;
+pub mod rd;
 pub mod refw;
+pub mod wr;
 
 /// Big-endian helpers written by hand (the oracle must not share `byteorder` with the crate).
 pub fn be32(b: &[u8], at: usize) -> u32 {
